@@ -11,6 +11,7 @@
 #include <cstdlib>
 #include <cstring>
 #include <map>
+#include <new>
 #include <string>
 #include <tuple>
 #include <type_traits>
@@ -719,6 +720,120 @@ namespace c09
     }
 
     std::string hexs(const std::string &s, size_t max = 24);
+
+    // ---------------------------------------------------------------- relocated archive / storage objects
+    // An archive, reader, writer or storage object is built, optionally used for a prefix (pre), then copied /
+    // moved / assigned / returned by value / relocated by a growing std::vector; the SOURCE object is destroyed,
+    // its bytes scribbled (0xEE) and its memory freed before the relocated object is used. Whatever the object
+    // refers to in the CALLER's memory stays alive; anything it kept inside the source object is dead.
+    enum Way
+    {
+        W_DIRECT,
+        W_COPY,
+        W_MOVE,
+        W_COPY_ASSIGN,
+        W_MOVE_ASSIGN,
+        W_RETURNED,
+        W_RETURNED_MOVED,
+        W_VECTOR_GROWTH,
+        W_COUNT
+    };
+    inline const char *way_name(int w)
+    {
+        static const char *n[] = {"used directly", "copy-constructed", "move-constructed", "copy-assigned", "move-assigned",
+                                  "returned by value", "returned by value (moved)", "relocated by a growing std::vector"};
+        return n[w];
+    }
+    template <class R, class Make, class Pre> __attribute__((noinline)) R give_back(Make &make, Pre &pre, bool moved)
+    {
+        char pad[64];
+        memset(pad, 0x5A, sizeof pad);
+        keep(pad);
+        R a(make());
+        pre(a);
+        if (moved)
+            return R(std::move(a));
+        return a;
+    }
+    inline void scribble_stack()
+    {
+        volatile char junk[2048];
+        for (size_t i = 0; i < sizeof junk; i++)
+            junk[i] = (char)0xEE;
+    }
+    // returns false when the class does not offer this way (not assignable)
+    template <class R, class Make, class Pre, class Use> bool with_relocated(int way, Make make, Pre pre, Use use)
+    {
+        if (way == W_RETURNED || way == W_RETURNED_MOVED)
+        {
+            R c(give_back<R>(make, pre, way == W_RETURNED_MOVED));
+            scribble_stack();
+            use(c);
+            return true;
+        }
+        void *mem = malloc(sizeof(R));
+        R *src = new (mem) R(make());
+        pre(*src);
+        auto kill = [&] {
+            src->~R();
+            memset(mem, 0xEE, sizeof(R));
+            free(mem);
+        };
+        switch (way)
+        {
+        case W_DIRECT:
+            use(*src);
+            kill();
+            return true;
+        case W_COPY:
+        {
+            R c(*src);
+            kill();
+            use(c);
+            return true;
+        }
+        case W_MOVE:
+        {
+            R c(std::move(*src));
+            kill();
+            use(c);
+            return true;
+        }
+        case W_COPY_ASSIGN:
+            if constexpr (std::is_copy_assignable<R>::value)
+            {
+                R c(make());
+                c = *src;
+                kill();
+                use(c);
+                return true;
+            }
+            break;
+        case W_MOVE_ASSIGN:
+            if constexpr (std::is_move_assignable<R>::value)
+            {
+                R c(make());
+                c = std::move(*src);
+                kill();
+                use(c);
+                return true;
+            }
+            break;
+        case W_VECTOR_GROWTH:
+        {
+            std::vector<R> v;
+            v.reserve(1);
+            v.push_back(*src);
+            kill();
+            for (int i = 0; i < 9; i++)
+                v.push_back(v.front()); // reallocates several times; elements are copied or moved
+            use(v.front());
+            return true;
+        }
+        }
+        kill();
+        return false;
+    }
 
     // value indices used as the pre-populated receiver of an in-place decode of value i (of n):
     // every other value when the type has at most 40 values, else the neighbours, the last and the middle one
